@@ -14,6 +14,7 @@
 #include "memfile.h"
 #include "rng.h"
 #include "vsched.h"
+#include "dfs.h"
 #include "twin.h"
 #include "watchdog.h"
 
@@ -83,6 +84,17 @@ static LinMessage2 * make_lin(uint32_t uid) {
     LinMessage2 * m = new LinMessage2; m->apiMajor = 1 + uid % 2; m->objectTimeStamp = uid; m->objectFlags = 1; m->channel = 7; m->id = (uint8_t)uid; m->dlc = 8; m->crc = (uint16_t)(uid * 3);
     for (size_t k = 0; k < m->data.size(); k++) m->data[k] = (uint8_t)(uid + k); m->respBaudrate = uid; return m;
 }
+// small configurations for the systematic (depth-first, preemption-bounded) exploration
+static Cfg make_dfs_cfg(long ci) {
+    Cfg c; static const int kinds[] = {0, 1, 3, 2};
+    c.kind = kinds[ci % 4]; c.shipped = false; c.level = (ci / 4) % 2 ? 6 : 0; c.trailer = (ci / 8) % 2;
+    static const uint32_t cs[] = {16, 64}; c.C = cs[(ci / 16) % 2]; c.B = 64; c.Q = 1 + (uint32_t)((ci / 32) % 2);
+    int shape = (int)((ci / 64) % 3);      // object mix: one CanMessage | CanMessage + small AppText straddling containers | AppText larger than buffer + container
+    if (shape == 0) c.sizes = {-1}; else if (shape == 1) c.sizes = {-1, 21}; else c.sizes = {150};
+    c.k = (c.kind == 1 || c.kind == 2) ? (int)(c.sizes.size() > 1 ? 1 : 0) : (int)c.sizes.size();
+    return c;
+}
+
 static twin::Bytes make_stream(const Cfg & c) {
     twin::Bytes s;
     for (size_t i = 0; i < c.sizes.size(); i++) {
@@ -199,6 +211,9 @@ int main(int argc, char ** argv) {
     hc::out_init();
     if (argc < 6) { fprintf(stderr, "usage: h_pipe pipe seed from to schedules_per_config\n"); return 2; }
     uint64_t seed = strtoull(argv[2], nullptr, 0); long from = atol(argv[3]), to = atol(argv[4]); long S = atol(argv[5]);
+    bool dfsmode = std::string(argv[1]) == "pipedfs";      // argv[5] = preemption bound, argv[6] = execution budget per configuration
+    int dfs_bound = dfsmode ? (int)S : 0; uint64_t dfs_max = (dfsmode && argc > 6) ? strtoull(argv[6], nullptr, 0) : 200000; if (dfsmode) S = 1;
+    uint64_t dfs_exec = 0, dfs_trunc = 0, dfs_cfgs = 0, dfs_maxdepth = 0;
     const char * tmp = getenv("VERIF_TMP"); std::string dir = tmp ? tmp : "/dev/shm";
     std::string path = dir + "/pipe." + std::to_string(getpid()) + ".blf";
     wd::start();
@@ -209,9 +224,9 @@ int main(int argc, char ** argv) {
     for (long idx = from; idx < to; idx++) {
         hc::begin_case(std::to_string(idx));
         long ci = idx / S, si = idx % S;
-        wd::arm(120, "pipe");
+        wd::arm(dfsmode ? 1400 : 120, "pipe");
         if (ci != cur_cfg) {
-            cur_cfg = ci; c = make_cfg(seed, ci); ref_ok = false;
+            cur_cfg = ci; c = dfsmode ? make_dfs_cfg(ci) : make_cfg(seed, ci); ref_ok = false;
             bool reading = c.kind == 0 || c.kind == 1 || c.kind == 2 || c.kind == 5;
             if (reading) twin::save(path, twin::wrap(make_stream(c), c.C, c.level));
             else {
@@ -242,7 +257,11 @@ int main(int argc, char ** argv) {
             std::string r = report; for (auto & ch : r) if (ch == '\n') ch = '|';
             printf("@viol C06:%s:%s :: %s || %s\n", kind, key, ctx.c_str(), r.c_str()); fflush(stdout); emit_stats(); _exit(42);
         };
-        RunOut r = session(c, path, true, sseed, strategy, sparam, spurious);
+        if (dfsmode) { dfs::begin(dfs_bound); spurious = 0; strategy = SCHED_RANDOM; }
+        RunOut r;
+        do {
+        if (dfsmode) dfs::start_execution();
+        r = session(c, path, true, sseed, strategy, sparam, spurious);
         sessions++; totsteps += r.steps; if ((long)r.steps > maxsteps) maxsteps = (long)r.steps; sigs.insert(r.sig); kinds[c.kind]++;
         bool reading = c.kind == 0 || c.kind == 1 || c.kind == 2 || c.kind == 5;
         if (reading) read_sessions++; else write_sessions++;
@@ -260,6 +279,9 @@ int main(int argc, char ** argv) {
             }
         }
         if (sample.empty() || (sessions % 997) == 0) sample = c.str() + " strategy=" + std::to_string(strategy) + "/" + std::to_string(sparam) + " steps=" + std::to_string(r.steps);
+        } while (dfsmode && dfs::next_execution(dfs_max));
+        if (dfsmode) { dfs_exec += dfs::executions; dfs_cfgs++; if (dfs::truncated) dfs_trunc++; if (dfs::max_depth > dfs_maxdepth) dfs_maxdepth = dfs::max_depth; dfs::end();
+            printf("@dfs %ld %llu %d %llu %s\n", ci, (unsigned long long)dfs::executions, dfs::truncated ? 1 : 0, (unsigned long long)dfs::max_depth, c.str().c_str()); }
         wd::disarm();
     }
     unlink(path.c_str());
